@@ -323,6 +323,35 @@ def through_file(item):
                     res['violations'].append({'case': {'type': letter, 'kind': 'file-chain', 'at': what}, 'expected': '%r' % expect[j],
                                               'observed': '%r (stored value %r)' % (float(got[j]), vals[j]),
                                               'signature': {'kind': 'file-chain-differs', 'type': letter, 'direction': direction, 'src': src_spelling}})
+    # integer raw channels (what a DAQ card stores): the same microvolt numbers as int16 / uint16 / int32 must give the same
+    # temperatures as when they are stored as doubles - over the whole range of the type that the thermocouple covers
+    tc = module_for(letter)
+    for t, fmt, lo_, hi_ in (('Int16', '<h', -32768, 32767), ('Uint16', '<H', 0, 65535), ('Int32', '<i', -2 ** 31, 2 ** 31 - 1)):
+        uv_lo, uv_hi = 1000.0 * float(ref_forward(tab, np.array([ilo]))[0]), 1000.0 * float(ref_forward(tab, np.array([ihi]))[0])
+        a, b = max(lo_, int(math.ceil(uv_lo))), min(hi_, int(math.floor(uv_hi)))
+        if b - a < 10:
+            continue
+        vals = sorted(set([a, b, (a + b) // 2] + [a + (b - a) * k // 37 for k in range(38)] + [v for v in (32767, 32768, 32769, -1, 0, 1) if a <= v <= b]))
+        props = [u('NI_Number_Of_Scales', 1), s('NI_Scale[0]_Scale_Type', 'Thermocouple'), u('NI_Scale[0]_Thermocouple_Thermocouple_Type', CODES[letter]),
+                 u('NI_Scale[0]_Thermocouple_Scaling_Direction', 0), u('NI_Scale[0]_Thermocouple_Input_Source', 0xFFFFFFFF)]
+        data = G.encode([G.seg([("/'g'/'a'", ['FULL', t, len(vals), [struct.pack(fmt, v).hex() for v in vals]], props)])], seed=0)[0]
+        want = np.asarray(tc.mv_to_celsius(np.array(vals, dtype=np.float64) / 1000.0), dtype=np.float64)
+        for lazy in (False, True):
+            def read_int():
+                tf = (H.TdmsFile.open if lazy else H.TdmsFile.read)(io.BytesIO(data))
+                try:
+                    return np.asarray(tf['g']['a'][:], dtype=np.float64)
+                finally:
+                    if lazy:
+                        tf.close()
+            r = H.guarded(read_int)
+            res['counters']['file_points'] += len(vals)
+            if r[0] != 'ok' or len(r[1]) != len(vals) or (np.abs(r[1] - want) > 1e-9).any():
+                j = int(np.argmax(np.abs(r[1] - want))) if r[0] == 'ok' and len(r[1]) == len(vals) else 0
+                res['violations'].append({'case': {'type': letter, 'kind': 'file-chain', 'at': 'raw %s %s' % (t, 'lazy' if lazy else 'eager')},
+                                          'expected': '%r C for %d uV' % (float(want[j]), vals[j]),
+                                          'observed': ('%r' % float(r[1][j])) if r[0] == 'ok' and len(r[1]) == len(vals) else repr(r)[:200],
+                                          'signature': {'kind': 'integer-raw-differs', 'type': letter, 'direction': 0, 'src': t}})
     return res
 
 
